@@ -8,6 +8,7 @@ open Comrak.C11
 #print axioms spInRange_sound
 #print axioms spx_consume_conserves
 #print axioms spx_consume_in_span
+#print axioms spx_consume_in_range
 #print axioms blockEnd_after_start
 #print axioms blockEnd_counterexample
 #print axioms thematicEnd_exact_iff
